@@ -177,16 +177,18 @@ def namespace_classes(m, meta):
         return type(name, (Renderable,), {"_get_render_size_": lambda s: Size(1, 1), "_render_": lambda s, a, b: None})
     n = 0
     for two_bases in (False, True):
-        for base_kind in ("plain", "associated"):
+        for base_kind in ("plain", "associated", "below-associated"):
             for own in (False, True):
                 for all_defaults in (True, False):
                     for rc in ("none", "fresh", "has-args", "not-a-class"):
                         if not own and not all_defaults:
                             continue
                         n += 1
-                        if base_kind == "associated":
+                        if base_kind in ("associated", "below-associated"):
                             B = render_cls(f"B{n}")
                             base = type(f"BaseArgs{n}", (ArgsNamespace,), {"__annotations__": {"x": int}, "x": 0}, render_cls=B)
+                            if base_kind == "below-associated":      # two levels down: the association is the ancestor's
+                                base = type(f"BaseArgsPlus{n}", (base,), {})
                         else:
                             base = ArgsNamespace
                         bases = (base, type(f"Mixin{n}", (ArgsNamespace,), {})) if two_bases else (base,)
@@ -202,7 +204,7 @@ def namespace_classes(m, meta):
                             if rc == "has-args":
                                 type(f"Prior{n}", (ArgsNamespace,), {"__annotations__": {"p": int}, "p": 0}, render_cls=T)
                             kw["render_cls"] = T
-                        valid = (not two_bases and not (base_kind == "associated" and own) and all_defaults
+                        valid = (not two_bases and not (base_kind != "plain" and own) and all_defaults
                                  and (rc == "none" and not own or rc == "fresh" and own and base_kind == "plain"))
                         try:
                             C = type(f"New{n}", bases, ns, **kw)
